@@ -110,6 +110,9 @@ type World struct {
 	// when it is invoked, that list still holds what the caller put there.
 	AliasProbe bool
 	Later      []argmapper.Arg
+	// FreshSubtypes: RedefineCall labels every other fresh value with the
+	// subtype "t" when the declared input has none.
+	FreshSubtypes bool
 	// ProvideIfaceInputs: RedefineCall supplies NAMED interface-typed inputs of
 	// the redefined function through zero-input provider functions (ids 901..)
 	// that return a value of exactly that interface type; Providers counts them.
@@ -809,6 +812,7 @@ func (w *World) RedefineCall(target *argmapper.Func, args []argmapper.Arg) (rf *
 		return rf, redefErr, "", nil, o
 	}
 	var callArgs, providers []argmapper.Arg
+	var declared []Label // the redefined function's inputs as it declares them, parallel to fresh
 	nProviders := 0
 	tok := 500
 	for _, v := range rf.Input().Values() {
@@ -836,6 +840,12 @@ func (w *World) RedefineCall(target *argmapper.Func, args []argmapper.Arg) (rf *
 			l.Type = Implementers(ti)[0]
 		}
 		l.Dyn = l.Type
+		declared = append(declared, l)
+		if w.FreshSubtypes && l.Sub == "" && (tok+len(v.Name))%2 == 0 {
+			// the declared input carries no subtype: a value labelled with
+			// one is an acceptable argument for it
+			l.Sub = "t"
+		}
 		tok++
 		in := Input{L: l, Tok: tok}
 		fresh = append(fresh, in)
@@ -849,9 +859,11 @@ func (w *World) RedefineCall(target *argmapper.Func, args []argmapper.Arg) (rf *
 	w.mu.Lock()
 	for _, in := range fresh {
 		org := w.Ledger[in.Tok]
-		for _, other := range fresh {
-			if other.Tok != in.Tok && RPlus(other.L, in.L) {
-				alt := other.L
+		for j, other := range fresh {
+			// (judged on the input as the redefined function DECLARES it: the
+			// fresh value given for it may carry an extra subtype label)
+			if other.Tok != in.Tok && RPlus(declared[j], in.L) {
+				alt := declared[j]
 				alt.Dyn = in.L.Type
 				org.Alt = append(org.Alt, alt)
 			}
